@@ -71,6 +71,10 @@ class StandInChan:
     def close(self) -> None:
         self.closed = True
 
+    def was_write_discarded(self) -> bool:
+        # the stand-in never closes with data unsent (that path is the channel model's, see _c09_findings)
+        return False
+
     def is_closing(self) -> bool:
         return self.closed
 
